@@ -7,7 +7,49 @@
 use crate::core::Outcome;
 use crate::model::M;
 
+/// current behaviour at a known-finding site: (finding id, the state(s) pushr produces today)
+fn asis_states(name: &str, m0: &M) -> Option<(&'static str, Vec<M>)> {
+    let mut m = m0.clone();
+    match name {
+        // doc: "Pushes FALSE if the top FLOAT is 0.0, or TRUE otherwise"; upstream test
+        // boolean_from_float_compares_to_zero pins the inverse. The operand is kept.
+        "BOOLEAN.FROMFLOAT" if !m.f.is_empty() => {
+            let v = m.f[0] == 0.0;
+            m.b.insert(0, v);
+            Some(("KF-BOOLEAN.FROMFLOAT-inverted", vec![m]))
+        }
+        "BOOLEAN.FROMINTEGER" if !m.i.is_empty() => {
+            let v = m.i[0] == 0;
+            m.b.insert(0, v);
+            Some(("KF-BOOLEAN.FROMINTEGER-inverted", vec![m]))
+        }
+        // doc: quotient "truncated toward negative infinity" (floored modulus); upstream test
+        // integer_modulus_pushes_result pins -13 % 10 == -3 (truncated remainder)
+        "INTEGER.%" if m.i.len() >= 2 && m.i[0] != 0 => {
+            let b = m.i.remove(0);
+            let a = m.i.remove(0);
+            m.i.insert(0, a.wrapping_rem(b));
+            Some(("KF-INTEGER.%-truncated", vec![m]))
+        }
+        "FLOAT.%" if m.f.len() >= 2 && m.f[0] != 0.0 => {
+            let b = m.f.remove(0);
+            let a = m.f.remove(0);
+            m.f.insert(0, a % b);
+            Some(("KF-FLOAT.%-truncated", vec![m]))
+        }
+        _ => None,
+    }
+}
+
 pub fn asis(name: &str, m0: &M, out: &Outcome) -> Option<&'static str> {
-    let _ = (name, m0, out);
-    None
+    let got = match out {
+        Outcome::Ok(g) => g,
+        Outcome::Panic(_) => return None,
+    };
+    let (id, states) = asis_states(name, m0)?;
+    if states.iter().any(|s| s.diff(got).is_empty()) {
+        Some(id)
+    } else {
+        None
+    }
 }
